@@ -495,3 +495,30 @@ Print Assumptions C12_rejects_trailing_and_truncated.
 Print Assumptions C12_never_panics.
 Print Assumptions C12_instances.
 Print Assumptions C12_keccak_ed25519.
+
+(* ==== added by the model-mutation audit (notes/MODEL_MUTANTS_B.md, Proofs/AuditC12.v) ============================= *)
+From MRS Require Import Proofs.AuditC12.
+
+(* C12_only_canonical_hex is stated through the model's hex decoder.  This pins the decoder itself: it returns b EXACTLY for the case variants of
+   the canonical lower-case text of b (hex_lower c := c + 32 for 'A'..'Z', c otherwise; Proofs/AuditC12.v) - no blanks, no other letters,
+   no odd length; in particular 'A'..'F' have the values of 'a'..'f' *)
+Theorem C12_hex_accepts_exactly_case_variants : forall t b, hex_decode t = Some b <-> map hex_lower t = hex_encode b.
+Proof. exact hex_decode_iff12. Qed.
+
+(* hence an accepted hex text is Address::as_hex of the returned address, after the optional "0x" and up to the case of the letters a-f *)
+Theorem C12_only_canonical_hex_text :
+  forall (H : bytes -> bytes) (valid_pk : bytes -> bool),
+  (forall m, length (H m) = 32%nat) -> (forall k, valid_pk k = true -> length k = 32%nat) ->
+  forall s a, addr_from_hex H valid_pk s = Ok a -> map hex_lower (strip_0x s) = addr_as_hex H a.
+Proof.
+  intros H valid_pk Hl Hv. exact (from_hex_text_canonical H valid_pk Hl Hv).
+Qed.
+
+Check C12_hex_accepts_exactly_case_variants : forall t b, hex_decode t = Some b <-> map hex_lower t = hex_encode b.
+Check C12_only_canonical_hex_text :
+  forall (H : bytes -> bytes) (valid_pk : bytes -> bool),
+  (forall m, length (H m) = 32%nat) -> (forall k, valid_pk k = true -> length k = 32%nat) ->
+  forall s a, addr_from_hex H valid_pk s = Ok a -> map hex_lower (strip_0x s) = addr_as_hex H a.
+
+Print Assumptions C12_hex_accepts_exactly_case_variants.
+Print Assumptions C12_only_canonical_hex_text.
